@@ -50,7 +50,27 @@ def check_run(viol, tag, scen, rs, expect_success=True, kf_ids=(), known_hit=Non
         p = write_replay("C09", tag + "-lock", dict(kind="trace-rejected-by-model", scenario=scen, answer=ans, events=ev))
         viol.append(Violation("C09", p, "%s: lock trace rejected by the model: %s" % (scen.get("name", tag), ans), no_input=True))
         return False
+    # wait-for protocol (Waits acceptor): blocking waits only without locks/jobs, requests follow the declared graph;
+    # the progress theorem then excludes a state in which nobody can move
+    ans, ev, reach = sched.replay_waits(rs[0].trace, scen.get("graph"))
+    m = re.match(r"ok alive=(\d+) blocked=(\d+) deadlocked=(\d) stuckstates=(\d+) maxblocked=(\d+)", ans)
+    if not m:
+        p = write_replay("C09", tag + "-wait", dict(kind="trace-rejected-by-model", scenario=scen, answer=ans, events=ev, reach=reach))
+        viol.append(Violation("C09", p, "%s: wait-for trace rejected by the model: %s" % (scen.get("name", tag), ans), no_input=True))
+        return False
+    if int(m.group(4)) > 0:
+        p = write_replay("C09", tag + "-stuck", dict(kind="model-state-without-enabled-process", scenario=scen, answer=ans, events=ev, reach=reach))
+        viol.append(Violation("C09", p, "%s: the run passed through a state in which no process could move: %s" % (scen.get("name", tag), ans)))
+        return False
+    if WAITSTATS is not None:
+        WAITSTATS["wait_traces"] = WAITSTATS.get("wait_traces", 0) + 1
+        WAITSTATS["wait_events"] = WAITSTATS.get("wait_events", 0) + len(ev)
+        WAITSTATS["max_blocked"] = max(WAITSTATS.get("max_blocked", 0), int(m.group(5)))
+        WAITSTATS["with_declared_graph"] = WAITSTATS.get("with_declared_graph", 0) + (1 if scen.get("graph") is not None else 0)
     return True
+
+
+WAITSTATS = {}
 
 
 def run(ctx):
@@ -64,7 +84,7 @@ def run(ctx):
     if "same-file-twice-in-one-command" in kf:
         kfl.append(("same-file-twice-in-one-command", r"locks\.insert\(fid\)", "`redo a ./a`: the same file named twice in one command aborts on the lock-registry assertion (state.rs Lock::new)"))
 
-    def go(name, build, cmds, expect_success=True, env=None, stagger=0.0, timeout=40):
+    def go(name, build, cmds, expect_success=True, env=None, stagger=0.0, timeout=40, graph=None):
         pr = Project()
         try:
             build(pr)
@@ -75,7 +95,7 @@ def run(ctx):
             stats["processes"] += len(set(e[0] for e in rs[0].trace))
             if env and "REDO_VERIF_DELAY" in env:
                 stats["delayed"] += 1
-            scen = dict(name=name, commands=cmds, env=env or {})
+            scen = dict(name=name, commands=cmds, env=env or {}, graph=graph)
             ok = check_run(viol, name.replace(" ", "-")[:40], scen, rs, expect_success, kfl, known_hit)
             if ok and len(samples) < 3:
                 samples.append(dict(scenario=scen, rcs=[r.rc for r in rs], events=len(rs[0].trace)))
@@ -91,7 +111,8 @@ def run(ctx):
                     for i in range(k):
                         pr.write("t%d.do" % i, ("sleep %.3f\n" % (durs[i] / 1000.0) if durs[i] else "") + "echo t%d\n" % i)
                     pr.write("all.do", "redo-ifchange " + " ".join("t%d" % i for i in range(k)) + "\n")
-                if not go("simultaneous k=%d j=%d durs=%s delay=%s" % (k, j, durs, delay), build, [["redo", "-j%d" % j, "all"]], env={"REDO_VERIF_DELAY": delay}):
+                if not go("simultaneous k=%d j=%d durs=%s delay=%s" % (k, j, durs, delay), build, [["redo", "-j%d" % j, "all"]], env={"REDO_VERIF_DELAY": delay},
+                          graph=dict([("all", ["t%d" % i for i in range(k)])] + [("t%d" % i, []) for i in range(k)])):
                     break
             if viol:
                 break
@@ -105,7 +126,8 @@ def run(ctx):
                 for i in range(w):
                     pr.write("f%d.do" % i, "echo f%d\n" % i)
                 pr.write("all.do", "redo-ifchange " + " ".join("f%d" % i for i in range(w)) + "\n")
-            if not go("fan of %d at -j8" % w, build, [["redo", "-j8"] + ([] if rep % 2 else ["--no-log"]) + ["all"]]):
+            if not go("fan of %d at -j8" % w, build, [["redo", "-j8"] + ([] if rep % 2 else ["--no-log"]) + ["all"]],
+                      graph=dict([("all", ["f%d" % i for i in range(w)])] + [("f%d" % i, []) for i in range(w)])):
                 break
     # 3. several invocations contending for the same targets
     if not viol:
@@ -118,7 +140,8 @@ def run(ctx):
             pr.write("y.do", "sleep 0.6; redo-ifchange x; echo y\n")
             pr.write("p.do", "redo-ifchange x y; echo p\n")
             pr.write("q.do", "redo-ifchange y; echo q\n")
-        go("lock hand-over on an acyclic graph (p->{x,y}, q->y, y->x)", build, [["redo", "q"], ["redo", "p"]], stagger=0.1, timeout=30)
+        go("lock hand-over on an acyclic graph (p->{x,y}, q->y, y->x)", build, [["redo", "q"], ["redo", "p"]], stagger=0.1, timeout=30,
+           graph=dict(p=["x", "y"], q=["y"], y=["x"], x=[]))
     # 4. the same target named more than once in one command
     if not viol:
         def build(pr):
@@ -128,6 +151,20 @@ def run(ctx):
                     ["redo-ifchange", "b", "a", "./b", "../" + "PROJ" + "/a"], ["redo", "-j3", "a", "./a", "b"]):
             cmd = [c.replace("PROJ", "@PROJ@") for c in cmd]
             if not go("same target twice: " + " ".join(cmd), build, [cmd]):
+                break
+    # 4b. a token read that loses the race: ten siblings wait for one slow target at -j2; when it is done they all want
+    #     their token back while the parent (paused between select() and read(), delay hook js.tryread) wants one too
+    if not viol:
+        sib = "x y z u v w p q r s".split()
+        def build(pr):
+            pr.write("all.do", "redo-ifchange " + " ".join(sib) + "\n")
+            for x in sib:
+                pr.write(x + ".do", "redo-ifchange slow; echo %s\n" % x)
+            pr.write("slow.do", "sleep 0.3; echo slow\n")
+        for rep in range(6 if thorough else 3):
+            if not go("stolen token (parent loses the select/read race) #%d" % rep, build, [["redo", "-j2", "all"]],
+                      env={"REDO_VERIF_DELAY": "js.tryread:all=80,js.tryread=10"}, timeout=15,
+                      graph=dict([("all", sib), ("slow", [])] + [(x, ["slow"]) for x in sib])):
                 break
     # 5. random graphs, random -j, random delays
     if not viol:
@@ -140,8 +177,10 @@ def run(ctx):
             cmds = [["redo", "-j%d" % j] + (["--shuffle"] if rng.random() < 0.3 else []) + ["all"]]
             if rng.random() < 0.3:
                 cmds.append(["redo-ifchange", rng.choice(sorted(g))])
-            if not go("random graph %d j=%d delay=%s" % (i, j, d), build, cmds, env={"REDO_VERIF_DELAY": d} if d else None, timeout=60):
+            gr = {n: list(v["deps"]) for n, v in g.items()}
+            gr["all"] = sorted(n for n in g if not any(n in v["deps"] for v in g.values()))
+            if not go("random graph %d j=%d delay=%s" % (i, j, d), build, cmds, env={"REDO_VERIF_DELAY": d} if d else None, timeout=60, graph=gr):
                 break
     return dict(evaluations=stats["runs"], distinct_nontrivial=stats["scenarios"],
-                rule="(1) systematically: k=2..4 jobs at -j2/-j3 with the parent paused after every start and/or child exit so that every combination of {child exits, token arrivals} is pending at a wake-up; (2) fans of 8-12 jobs at -j8; (3) two invocations contending for one target and the acyclic lock hand-over graph; (4) one file named twice in a command; (5) random graphs with random -j, --shuffle and delays; every trace replayed through the Tokens and Locks acceptors",
-                samples=samples, traces_validated_against_impl=stats["scenarios"], distribution=stats, known_hit=known_hit)
+                rule="(1) systematically: k=2..4 jobs at -j2/-j3 with the parent paused after every start and/or child exit so that every combination of {child exits, token arrivals} is pending at a wake-up; (2) fans of 8-12 jobs at -j8; (3) two invocations contending for one target and the acyclic lock hand-over graph; (4) one file named twice in a command; (4b) a parent that loses the select()/read() race for a token while its children wait for theirs; (5) random graphs with random -j, --shuffle and delays; every trace replayed through the Tokens, Locks and Waits (wait-for / progress) acceptors",
+                samples=samples, traces_validated_against_impl=stats["scenarios"], distribution=dict(stats, **WAITSTATS), known_hit=known_hit)
